@@ -115,7 +115,15 @@ def both(dbg, rel, i):
 # ==========================================================================================
 class C07(Prop):
     pid = "C07"
-    theorems = [("C07_format", None)]
+    theorems = [("C07_format",
+                 "forall p : list N, enc_collect p = frame p /\\ encode_buf None p = Some (frame p) /\\ "
+                 "(forall n : nat, encode_buf (Some n) p = if Nat.leb (length (frame p)) n then Some (frame p) else None) /\\ "
+                 "(forall k : nat, snd (enc_collect_from (enc_limit p) (enc_new p) []) = ENone /\\ "
+                 "enc_after k (fst (fst (enc_collect_from (enc_limit p) (enc_new p) []))) = repeat ENone k)")]
+    level_text = ("Theorem C07_format (Coq, closed under the global context): for every payload the iterator encoder collects to frame p, "
+                  "the buffer encoder returns frame p (growable) resp. frame p iff it fits / OutOfMemory otherwise (any capacity), and "
+                  "the iterator returns None forever afterwards; frame is the independent wire-format specification (Spec/Frame.v). "
+                  "Correspondence + oracle: real encoders vs extracted frame on payloads incl. >=256 bytes and 0x1b runs.")
     suite_names = "S-ENC (enci, encb)"
     rule = ("payloads from G-PAY (lengths 0..40, 252..260, 1020..1028, 8188..8196, thorough 65530..65540; random, "
             "5-symbol alphabet, 0x1b/zero runs, embedded start/end look-alikes); per payload: iterator encoder with 3 "
@@ -346,7 +354,18 @@ def has_panic(o):
 
 class C05(Prop):
     pid = "C05"
-    theorems = [("C05_total", None)]
+    theorems = [("C05_total",
+                 "(forall (cap : cap_t) (ops : list op), forallb (fun e => negb (ev_panics e)) (snd (run_ops cap init ops)) = true) /\\ "
+                 "(forall (p : list N) (k : nat), ~ In EPanic (enc_after k (enc_new p))) /\\ "
+                 "(forall s : list N, ~ In RPanic (decode_fn s)) /\\ "
+                 "(forall (cap : cap_t) (s : list N) (k : nat), ~ In (Some RPanic) (di_extra cap k (di_new s))) /\\ "
+                 "(forall (cap : cap_t) (kind : skind) (evs : list sev) (calls : list (meth * target)), "
+                 "Forall (fun c => snd c = TBytes) calls -> forallb (fun c => negb (call_panics c)) (sr_calls cap calls (rd_new kind evs)) = true)")]
+    level_text = ("Theorem C05_total (Coq, closed): every panic site of the transport code (checked arithmetic, indexing, asserts, "
+                  "borrow guard, fuel) is an explicit output value of the model and is proved unreachable for all histories, capacities, "
+                  "payloads, sources and fault schedules; termination by structural recursion. Correspondence/oracle in debug (overflow "
+                  "checks) and release incl. 2^16..2^17+ noise runs.")
+    level_note = Prop.level_note + "; allocator failure of Vec growth and stack depth are outside the model (recursion depth <= 3)"
     suite_names = "S-DEC/S-FRONT/S-ENC/S-IO (dec, fdecode, fstream, rt, enci, encb, rd)"
     rule = ("all transport suites in debug (overflow checks on) and release: adversarial streams with interleaved finalize/reset/new, "
             "capacities incl. 0, noise runs of 2^16-2..2^16+2 and 2^17 bytes, payloads up to 8196 (thorough 65540), reader call "
@@ -541,7 +560,16 @@ def is_boundary_event(ev):
 
 class C14(Prop):
     pid = "C14"
-    theorems = [("C14_boundary", None)]
+    theorems = [("C14_boundary",
+                 "forall (cap : cap_t) (d0 : dec) (o : op) (ops2 : list op), boundary_ev (snd (do_op cap d0 o)) = true -> "
+                 "snd (run_ops cap (fst (do_op cap d0 o)) ops2) = snd (run_ops cap init ops2)"),
+                ("C14_concat",
+                 "forall (cap : cap_t) (ops1 : list op) (o : op) (ops2 : list op), "
+                 "boundary_ev (last (snd (run_ops cap init (ops1 ++ [o]))) EvNew) = true -> "
+                 "snd (run_ops cap init ((ops1 ++ [o]) ++ ops2)) = snd (run_ops cap init (ops1 ++ [o])) ++ snd (run_ops cap init ops2)")]
+    level_text = ("Theorems C14_boundary / C14_concat (Coq, closed): from any decoder state, after any boundary event the event sequence on "
+                  "every continuation equals that of a new decoder (bisimulation up to a normalisation that erases the dead CRC register "
+                  "and maps Done to the initial state). Oracle: used vs fresh real decoder on leak-exposing continuations.")
     suite_names = "S-DEC (dec)"
     rule = ("triples (prefix ending at a boundary event: delivered frame, InvalidMessage, InvalidEsc, OutOfMemory, reset, finalize, "
             "from_buf) x continuation streams chosen to expose leaked state (zeros, 0x1b runs, end sequences, frames, partial start "
@@ -867,7 +895,11 @@ def tiles(case_line, o):
 
 class C17(Prop):
     pid = "C17"
-    theorems = [("C17_tiles", None)]
+    theorems = [("C17_tiles",
+                 "forall (cap : cap_t) (ops : list op), Forall op_ok ops -> tiles 0 0 (combine ops (snd (run_ops cap init ops))) = true")]
+    level_text = ("Theorem C17_tiles (Coq, closed): for every history of any length the byte-accounting monitor (Spec/Tiling.v) accepts "
+                  "the decoder's events: discarded counts, delivered frames (|frame m| bytes) and rejected frames tile the input; counts "
+                  "are unbounded naturals. Oracle: the same monitor on the real decoder incl. 2^16+ noise and I/O error counts.")
     suite_names = "S-DEC/S-IO (dec, rd)"
     rule = ("adversarial streams with interleaved finalize/reset, every stream ending in finalize; long noise runs 2^16-2..2^16+2 and "
             "2^17+1; reader runs over io::Read with Other/EOF faults where the counts attached to I/O errors are checked against the "
@@ -981,7 +1013,13 @@ def io_count_check(c, o):
 # ==========================================================================================
 class C18(Prop):
     pid = "C18"
-    theorems = [("C18_refines", None)]
+    theorems = [("C18_refines",
+                 "forall (n : nat) (ops : list aop), ab_run n (ab_default n) ops = bv_run n [] ops /\\ "
+                 "Forall (fun r => fst r <> APanic /\\ snd r <> None) (ab_run n (ab_default n) ops)"),
+                ("C18_failing_op", None), ("C18_from_iter", None), ("C18_eq", None)]
+    level_text = ("Theorems C18_refines, C18_failing_op, C18_from_iter, C18_eq (Coq, closed): the ArrayBuf model (array with stale bytes + "
+                  "count, index guards) refines the ideal bounded vector for every capacity and operation sequence. Oracle: real "
+                  "ArrayBuf<N> vs an ideal vector, equality/Debug vs the visible slice.")
     suite_names = "S-ABUF (abuf, abfrom, abeq)"
     rule = ("capacities N from the menu (0..40, 255..257, 1024, ...) x operation sequences of up to 40 push/extend_from_slice/truncate/"
             "clear with sizes clustered at N-1, N, N+1; FromIterator with |l| around N; equality/Debug of two histories. The oracle is "
@@ -1796,10 +1834,10 @@ class C11(Prop):
         return bad
 
 
-REGISTRY = {"C02": C02}
+REGISTRY = {"C02": C02, "C05": C05, "C07": C07, "C14": C14, "C17": C17, "C18": C18}
 
 NOT_CLAIMED = {}
-for _p in ["C01", "C03", "C04", "C05", "C06", "C07", "C08", "C09", "C10", "C11", "C12", "C13", "C14", "C15", "C16", "C17", "C18"]:
+for _p in ["C01", "C03", "C04", "C06", "C08", "C09", "C10", "C11", "C12", "C13", "C15", "C16"]:
     NOT_CLAIMED[_p] = "check under construction in this revision (model/theorem not yet committed); the technique applies, see DESIGN.md section 5"
 
 
